@@ -28,7 +28,7 @@ class AbsMethod:
     def __init__(self, recv, tyname, name): self.recv = recv; self.tyname = tyname; self.name = name
 
 BUILTIN_EXC = set(S._BUILTIN_BASES) | {"BaseException"}
-BUILTINS = {"len", "int", "str", "isinstance", "enumerate", "range", "zip", "dict", "tuple", "list", "ord", "chr", "repr", "any", "all", "sum", "max", "min", "sorted", "set", "type", "next", "super", "abs", "bool"}
+BUILTINS = {"eval", "hasattr", "getattr", "iter", "print", "float", "len", "int", "str", "isinstance", "enumerate", "range", "zip", "dict", "tuple", "list", "ord", "chr", "repr", "any", "all", "sum", "max", "min", "sorted", "set", "type", "next", "super", "abs", "bool"}
 
 repr_str = z3.Function("repr_str", z3.StringSort(), z3.StringSort())
 
@@ -264,7 +264,7 @@ class Exec:
             yield st, AbsMethod(base, base.ty.args[0], attr); return
         if isinstance(base, (BuiltinRef, TypeOf)) and attr == "__name__":
             yield st, (base.name if isinstance(base, BuiltinRef) else fresh(STR, "typename")[0]); return
-        if isinstance(base, (Sym, str, list, UFL, dict, tuple, UFMap)):
+        if isinstance(base, (Sym, str, list, UFL, dict, tuple, UFMap, UFDict)):
             yield st, BuiltinRef("method." + attr, bound=base); return
         raise Unsupported("getattr %r.%s" % (base, attr))
 
@@ -309,6 +309,12 @@ class Exec:
             return
         if isinstance(base, UFMap):
             yield st, Sym(base.val_ty, base.fn(lift(idx).z)); return
+        if isinstance(base, UFDict):
+            kz = lift_to(base.key_ty, idx); present = base.has(kz)
+            for s2, b in self.fork(st, Sym(BOOL, present)):
+                if b: yield s2, self.ufdict_value(s2, base, kz)
+                else: yield s2, Raise(self.new_builtin_exc(s2, "KeyError", [idx]))
+            return
         if isinstance(base, Opaque): yield st, Opaque(); return
         if isinstance(base, UFL):
             i = lift(idx).z
@@ -500,6 +506,7 @@ class Exec:
         if isinstance(container, dict): return self.disj([self.equals(st, item, c) for c in container.keys()])
         if isinstance(container, str) and isinstance(item, str): return item in container
         if isinstance(container, (str, Sym)) and isinstance(item, (str, Sym)): return Sym(BOOL, z3.Contains(lift(container).z, lift(item).z))
+        if isinstance(container, UFDict): return Sym(BOOL, container.has(lift_to(container.key_ty, item)))
         if isinstance(container, UFL):
             i = z3.Int("in!%d" % next(core_fresh)); return Sym(BOOL, z3.Exists([i], z3.And(i >= 0, i < container.length, container.at(i) == lift(item).z)))
         raise Unsupported("in %r" % (container,))
@@ -780,10 +787,23 @@ class Exec:
                 base, idx = vs
                 if isinstance(base, list) and not isinstance(idx, Sym): base[idx] = v; yield s, ("next",); continue
                 if isinstance(base, dict) and not isinstance(idx, Sym): base[idx] = v; yield s, ("next",); continue
+                if isinstance(base, UFDict):
+                    new = base.updated(lift_to(base.key_ty, idx), base.encode(s, v))
+                    load = _copy.deepcopy(tgt.value)
+                    for n in ast.walk(load):
+                        if hasattr(n, "ctx"): n.ctx = ast.Store()
+                    yield from self.assign(s, load, new); continue
                 from . import builtins_model
                 yield from builtins_model.setitem(self, s, base, idx, v)
             return
         raise Unsupported("assign target %s" % type(tgt).__name__)
+
+    def ufdict_value(self, st, d, kz):
+        z = d.val(kz)
+        if d.decode is not None: return d.decode(st, z)
+        for ty in (INT, BOOL, STR, REAL):
+            if sort_of(ty) == d.val_sort: return Sym(ty, z)
+        raise Unsupported("UFDict value sort %s without decoder" % d.val_sort)
 
     def _if_convertible(self, node, st):
         """`if c: x = e` (no else) on a scalar local: merged into x = ite(c, e, x) instead of forking (same semantics,
